@@ -4,8 +4,9 @@
                          HttpHeaderEntry::parse, HttpHeaderEntry::packInto, HttpHeader::packInto,
                          addEntry / delById / getByIdIfPresent(getList) / putInt64 as used by parse
      src/http/RegisteredHeaders.cc  HeaderLookupTable.lookup(name,len) (table regenerated: HdrTable_gen)
-   The per-line pass (proc_line), line splitting, trimming, the Content-Length interpreter and
-   int64 printing are REUSED from ClenModel.v (property C26, validated against the same code).
+   Line splitting, left trimming, the Content-Length interpreter and int64 printing are REUSED from
+   ClenModel.v (property C26, validated against the same code); the per-line pass and right trimming
+   are ClenModel's with a linear-time reverse (proved equal).
    ClenModel's entry_parse / fields_loop / entries_loop / post_process know only three header ids and
    drop the field name; they are COPIED here and generalised to (id, name, value) entries with the
    full registered-header table.  HdrparseProofs.project_* proves that the copy projects onto the
@@ -18,6 +19,31 @@ Require Import SquidV.ClenModel.
 Require Import SquidV.gen.CharSets_gen.
 Require Import SquidV.gen.HdrTable_gen.
 Local Open Scope N_scope.
+
+(* ------------------------------------------------------------------ linear-time helpers
+   ClenModel's rtrim / last_is / strip_last / proc_line are written with List.rev (quadratic when
+   extracted).  The same functions with the accumulator reverse, so that fields at the 64K limits can
+   be run; HdrparseProofs.h_rtrim_eq / h_last_is_eq / h_strip_last_eq / h_proc_line_eq prove them equal
+   to the ClenModel originals. *)
+Definition frev (l : bytes) : bytes := rev_append l [].
+Definition h_rtrim (l : bytes) : bytes := frev (snd (span c_isspace (frev l))).
+Definition h_last_is (p : N -> bool) (l : bytes) : bool :=
+  match frev l with c :: _ => p c | [] => false end.
+Definition h_strip_last (l : bytes) : bytes := frev (tl (frev l)).
+
+(* one pass of the inner do-loop body on one line (ClenModel.proc_line); cont = (this_line > field_start).
+   Result: (line text up to field_end after the relaxed CR->SP rewrite, CR stripped?, bare CR seen) *)
+Definition h_proc_line (relaxed req : bool) (ln : bytes) (cont : bool) : option (bytes * bool * bool) :=
+  let crlf := h_last_is is_cr ln in
+  let fe := if crlf then h_strip_last ln else ln in
+  if crlf && req && negb (lenN fe =? 0) && forallb is_cr fe then None       (* CR+ field in a request *)
+  else
+    let bare := existsb is_cr fe in
+    if bare && negb relaxed then None
+    else
+      let fe' := if bare then map (fun c => if is_cr c then 32 else c) fe else fe in
+      if (lenN fe' =? 1) && cont then None                                   (* blank continuation line *)
+      else Some (fe', crlf, bare).
 
 (* ------------------------------------------------------------------ entries *)
 Record hentry := { he_id : N; he_name : bytes; he_value : bytes }.
@@ -50,13 +76,13 @@ Definition h_entry_parse (req : bool) (field : bytes) : option hentry :=
     if lenN name =? 0 then None
     else if 65534 <? lenN name then None
     else
-      let name' := if last_is c_isspace name then (if req then [] else rtrim name) else name in
+      let name' := if h_last_is c_isspace name then (if req then [] else h_rtrim name) else name in
       match name' with
       | [] => None
       | _ =>
         if negb (forallb cs_TCHAR name') then None
         else
-          let value := rtrim (ltrim after) in
+          let value := h_rtrim (ltrim after) in
           if 65534 <? lenN value then None
           else let '(id, nm) := canon_name name' in
                Some {| he_id := id; he_name := nm; he_value := c_str value |}
@@ -73,7 +99,7 @@ Fixpoint h_fields_loop (relaxed req : bool) (lines : list bytes) (rem : bytes)
   match lines with
   | [] => match rem with [] => Some [] | _ => None end                     (* missing LF *)
   | ln :: rest =>
-    match proc_line relaxed req ln (0 <? nl) with
+    match h_proc_line relaxed req ln (0 <? nl) with
     | None => None
     | Some (fe, cr, bare1) =>
       let next := match rest with [] => rem | x :: _ => x ++ [10] end in
@@ -238,21 +264,22 @@ Fixpoint ref_group_text (relaxed : bool) (g : list bytes) : bytes :=
 Definition ref_ows (c : N) : bool := (c =? 32) || (c =? 9) || (c =? 10) || (c =? 11) || (c =? 12) || (c =? 13).
 Fixpoint ref_trim_left (l : bytes) : bytes :=
   match l with c :: r => if ref_ows c then ref_trim_left r else l | [] => [] end.
-Definition ref_trim (l : bytes) : bytes := rev (ref_trim_left (rev (ref_trim_left l))).
+Definition ref_trim_right (l : bytes) : bytes := rev (ref_trim_left (rev l)).
+Definition ref_trim (l : bytes) : bytes := ref_trim_right (ref_trim_left l).
 Fixpoint ref_before_colon (l : bytes) : option (bytes * bytes) :=
   match l with
   | [] => None
   | c :: r => if c =? 58 then Some ([], r)
               else match ref_before_colon r with Some (n, v) => Some (c :: n, v) | None => None end
   end.
+(* field-name = token.  A request's name must be a token as written (so no white space anywhere
+   around it); a reply may carry BWS between name and colon, which is removed. *)
 Definition ref_split (req : bool) (text : bytes) : option (bytes * bytes) :=
   match ref_before_colon text with
   | None => None
   | Some (raw_name, raw_value) =>
-    let name := ref_trim raw_name in
-    if req && negb (list_eqb name raw_name) then None          (* request: no white space around the name *)
-    else if negb (list_eqb (ref_trim_left raw_name) raw_name) then None    (* never in front of it *)
-    else if (lenN name =? 0) || (65534 <? lenN raw_name) || negb (forallb cs_TCHAR name) then None
+    let name := if req then raw_name else ref_trim_right raw_name in
+    if (lenN name =? 0) || (65534 <? lenN raw_name) || negb (forallb cs_TCHAR name) then None
     else let value := ref_trim raw_value in
          if 65534 <? lenN value then None else Some (name, value)
   end.
